@@ -487,9 +487,9 @@ def _sync_job_workspaces(
 ):
     """Synchronize two job workspaces file by file, following the provided strategy."""
     if deep:
-        diff = _dircmp_deep(src.fn(subdir), dst.fn(subdir))
+        diff = _dircmp_deep(src.fn(subdir), dst.fn(subdir), ignore=[])
     else:
-        diff = dircmp(src.fn(subdir), dst.fn(subdir))
+        diff = dircmp(src.fn(subdir), dst.fn(subdir), ignore=[])
 
     for fn in diff.left_only:
         if exclude and any([re.match(p, fn) for p in exclude]):
